@@ -505,8 +505,13 @@ def layout_definition(s):
 
 def fa(vs, body, *pats):
     """ForAll with explicit triggers when z3 accepts them (a select on a lambda term - e.g. a list after remove() - is not a valid trigger)."""
+    from pyvc.values import _pattern_ok
+
+    def ok(p):
+        return all(_pattern_ok(p.arg(i)) for i in range(p.num_args())) if z3.is_app(p) and p.decl().name() == "pattern" else _pattern_ok(p)
+
     try:
-        return z3.ForAll(vs, body, patterns=list(pats)) if pats else z3.ForAll(vs, body)
+        return z3.ForAll(vs, body, patterns=list(pats)) if pats and all(ok(p) for p in pats) else z3.ForAll(vs, body)
     except z3.Z3Exception:
         return z3.ForAll(vs, body)
 
@@ -522,6 +527,9 @@ def ps_wf(s):
             ("no-uncertain-variable-listed-twice", fa([i, j], z3.Implies(z3.And(0 <= i, i < j, j < u.n), u.elems[i] != u.elems[j]), z3.MultiPattern(u.elems[i], u.elems[j])))]
 
 
+_PS_OWN = ("kept:uncertain_variables", "kept:distributions", "kept:distribution", "kept:family")
+
+
 def ps_kept(s0, s1, *except_fields):
     """The whole parameter space is untouched, except the listed fields."""
     out = DS2._only_field_changed(s0, s1, *except_fields, caches_too=False)
@@ -533,6 +541,9 @@ def ps_kept(s0, s1, *except_fields):
         out.append(("kept:distributions", z3.And(DD(s1).n == DD(s0).n, z3.ForAll([k], z3.And(DD(s1).has(k) == DD(s0).has(k), z3.Implies(DD(s0).has(k), DD(s1).get(k) == DD(s0).get(k)))))))
     if "distribution" not in except_fields:
         out.append(("kept:distribution", s1.distribution == s0.distribution))
+    fam = "_ParameterSpace__distribution_family_id"
+    if fam not in except_fields:
+        out.append(("kept:family", getattr(s1, fam) == getattr(s0, fam)))
     return out
 
 
@@ -696,6 +707,14 @@ def _names_arg(c):
     v = v[0] if isinstance(v, tuple) and len(v) == 1 else v
     ref = getattr(v, "ref", v)  # a keys() view or the dictionary itself
     o = c._old_heap[ref.id]
+    if hasattr(o, "elems") and not hasattr(o, "member"):
+        # a list of names: same interface (n, keys = the elements, membership = occurrence)
+        class _L:  # noqa: N801
+            n, keys = o.n, o.elems
+            k = z3.Const("k!nl", StrS)
+            i = z3.Int("i!nl")
+            member = z3.Lambda([k], z3.Exists([i], z3.And(0 <= i, i < o.n, o.elems[i] == k)))
+        return _L
     return o
 
 
@@ -715,7 +734,7 @@ class SplitArrayC19(Contract):
     def requires(self, c):
         nm, sz = _names_arg(c), c.old.names_to_sizes
         x = z3.Const("x!sq", StrS)
-        return [("sizes-are-the-layout", z3.ForAll([x], z3.Implies(nm.member[x], z3.And(sz.has(x), sz.get(x) == vsize(x))), patterns=[nm.member[x]]))]
+        return [("sizes-are-the-layout", fa([x], z3.Implies(nm.member[x], z3.And(sz.has(x), sz.get(x) == vsize(x))), nm.member[x]))]
 
     def ensures(self, c):
         r, nm = c.result, _names_arg(c)
@@ -1052,6 +1071,29 @@ class ParameterSpaceRoundTripLemma(Contract):
 full_joint = z3.Function("c19_full_joint_distribution", NAMES.sort(), DISTS.sort(), TVal.sort())  # JOINT_DISTRIBUTION_CLASS(all marginals, in order)
 
 
+# what the joint distribution of ALL the uncertain variables was last built from (ghost: the names, in order, and their distributions at that moment)
+declare_ghost("c19_joint_names", NAMES.sort())
+declare_ghost("c19_joint_dists", DISTS.sort())
+JOINT_GHOSTS = ("ghost:c19_joint_names", "ghost:c19_joint_dists")
+from pyvc.values import val_none  # noqa: E402
+
+
+def joint_ghosts(c, new=True):
+    g = c.new_ghost if new else c.old_ghost
+    return g("c19_joint_names", NAMES.sort()), g("c19_joint_dists", DISTS.sort())
+
+
+def joint_is_that_of(c, s1):
+    """`distribution` of the final state s1 is the joint distribution built from exactly the uncertain variables of s1, in their order, with their distributions."""
+    gn, gd = joint_ghosts(c)
+    u1, d1 = UV(s1), DD(s1)
+    i, k = z3.Int("i!jg"), z3.Const("k!jg", StrS)
+    gel, gmem, gvals = NAMES.dt.accessor(0, 1)(gn), DISTS.acc(0)(gd), DISTS.acc(1)(gd)
+    return [("joint:built-from-the-recorded-variables", s1.distribution == full_joint(gn, gd)),
+            ("joint:same-variables-in-the-same-order", z3.And(NAMES.dt.accessor(0, 0)(gn) == u1.n, fa([i], z3.Implies(z3.And(0 <= i, i < u1.n), gel[i] == u1.elems[i]), u1.elems[i]))),
+            ("joint:with-their-distributions", fa([i], z3.Implies(z3.And(0 <= i, i < u1.n), z3.And(gmem[u1.elems[i]], gvals[u1.elems[i]] == d1.get(u1.elems[i]))), u1.elems[i]))]
+
+
 @register
 class BuildJointDistribution(Contract):
     targets = (PS + ".build_joint_distribution",)
@@ -1059,13 +1101,17 @@ class BuildJointDistribution(Contract):
     trusted = True
     description = ("assumed (nested comprehension + third-party copula): build_joint_distribution sets `distribution` to the joint distribution "
                    "c19_full_joint_distribution(uncertain_variables, distributions) of all the marginals of all the uncertain variables, in order, when there is an "
-                   "uncertain variable, and changes nothing otherwise; nothing else changes")
-    modifies = ("self",)
+                   "uncertain variable (what it was built from is recorded in the ghosts c19_joint_names / c19_joint_dists), and changes nothing otherwise; nothing else changes")
+    modifies = ("self",) + JOINT_GHOSTS
 
     def ensures(self, c):
         s0, s1 = c.old.self, c.new.self
         u, d = UV(s0), DD(s0)
-        return [("distribution", s1.distribution == z3.If(u.n > 0, full_joint(list_term(NAMES, u), dict_term(DISTS, d)), s0.distribution))] + ps_kept(s0, s1, "distribution")
+        gn0, gd0 = joint_ghosts(c, new=False)
+        gn1, gd1 = joint_ghosts(c)
+        built = u.n > 0
+        return [("recorded", z3.And(gn1 == z3.If(built, list_term(NAMES, u), gn0), gd1 == z3.If(built, dict_term(DISTS, d), gd0))),
+                ("distribution", s1.distribution == z3.If(built, full_joint(gn1, gd1), s0.distribution))] + ps_kept(s0, s1, "distribution")
 
 
 _DS_HELPERS = {DS + ".remove_variable": "c19", DS + ".__update_current_metadata": "c19", DS + ".__update_current_status": "c19", DS + ".__clear_dependent_data": "c19"}
@@ -1080,7 +1126,7 @@ def _on_parameter_space(base, doc, reprove=True):
     def ensures(self, c):
         s0, s1 = c.old.self, c.new.self
         inherited = base.ensures(self, c) if reprove else [(f"assumed:proved-under-C02:{l}", f) for l, f in base.ensures(self, c)]
-        return inherited + [f for f in ps_kept(s0, s1) if f[0] in ("kept:uncertain_variables", "kept:distributions", "kept:distribution")]
+        return inherited + [f for f in ps_kept(s0, s1) if f[0] in _PS_OWN]
 
     return register(type(base.__name__ + "C19", (base,), {"variant": "c19", "prop": ("C19",), "self_schema": PS, "self_class": PS, "callee_variants": _DS_HELPERS,
                                                           "ensures": ensures, "__doc__": doc, "__module__": __name__}))
@@ -1107,8 +1153,13 @@ class RemoveVariable(Contract):
     c19 = True
     callee_variants = _DS_HELPERS
     params = {"name": TStr}
-    modifies = ("self",)
+    modifies = ("self",) + JOINT_GHOSTS
     raises = {"KeyError": lambda c: z3.Not(DS2.V(c.old.self).has(c.old.name))}
+
+    def finding_regions(self, c):
+        s, i = c.old.self, z3.Int("i!lr")
+        u = UV(s)
+        return {"last-uncertain-variable-removed": z3.And(u.n == 1, u.elems[0] == c.old.name)}
 
     def requires(self, c):
         s = c.old.self
@@ -1133,6 +1184,9 @@ class RemoveVariable(Contract):
             ("no-longer-uncertain", z3.Not(in_list(u1, nm))),
             ("distributions", z3.ForAll([k], z3.And(d1.has(k) == z3.And(d0.has(k), z3.Or(k != nm, z3.Not(was))), z3.Implies(d1.has(k), d1.get(k) == d0.get(k))))),
             ("deterministic:joint-distribution-kept", z3.Implies(z3.Not(was), s1.distribution == s0.distribution)),
+        ] + [(f"uncertain:{l}", z3.Implies(z3.And(was, u1.n > 0), f)) for l, f in joint_is_that_of(c, s1)] + [
+            # "its samples ... are consistent with these laws": once no uncertain variable is left there is no law to sample (None is the value __init__ gives)
+            ("uncertain:no-joint-distribution-of-a-removed-variable-survives", z3.Implies(z3.And(was, u1.n == 0), s1.distribution == val_none)),
         ]
 
 
@@ -1219,3 +1273,263 @@ class NamedDistributionLemmas(Contract):
                 ("triangular:shape-in-unit-interval", z3.Implies(z3.And(mn <= mode, mode <= mx, mn < mx, c_ == (mode - mn) / (mx - mn)), z3.And(0 <= c_, c_ <= 1))),
                 ("exponential:mean", z3.Implies(z3.And(rate != 0, scale == 1 / rate), loc + scale == loc + 1 / rate)),
                 ("exponential:positive-scale", z3.Implies(z3.And(rate > 0, scale == 1 / rate), scale > 0))]
+
+
+# ---------------------------------------------------------------------------- registration of a random vector / variable
+from pyvc.plug_c19 import default_marginal, family_id  # noqa: E402
+
+declare_ghost("c19_added_name", StrS)
+declare_ghost("c19_added_lower_bound", F1.sort())
+declare_ghost("c19_added_upper_bound", F1.sort())
+declare_ghost("c19_added_value", F1.sort())
+ADD_GHOSTS = ("ghost:c19_added_name", "ghost:c19_added_lower_bound", "ghost:c19_added_upper_bound", "ghost:c19_added_value")
+
+
+def added(c):
+    g = c.new_ghost
+    return g("c19_added_name", StrS), g("c19_added_lower_bound", F1.sort()), g("c19_added_upper_bound", F1.sort()), g("c19_added_value", F1.sort())
+
+
+@register
+class DsAddVariableC19(DS2.AddVariable):
+    variant = "c19"
+    prop = ("C19",)
+    self_schema = PS
+    self_class = PS
+    numpy = "precise"
+    trusted = True
+    params = {"name": TStr, "size": TInt, "type_": TStr, "lower_bound": F1, "upper_bound": F1, "value": F1}
+    modifies = ("self",) + ADD_GHOSTS
+    description = ("assumed on a parameter space: the C02 postcondition of DesignSpace.add_variable (PROVED under C02 with opaque bound arrays: the variable is appended last with "
+                   "index range [dimension, dimension + size), the others untouched, or ValueError), the fields of ParameterSpace are untouched, and the variable is registered WITH THE "
+                   "GIVEN lower / upper bound vectors and current value - recorded in the ghosts c19_added_* (what the stored bounds are numerically is the C02 link level)")
+
+    def _c02_post(self, c):
+        """The clauses of contracts/c02_design_space.py AddVariable (a current value is given)."""
+        s0, s1 = c.old.self, c.new.self
+        nm, sz = c.old.name, c.old.size
+        v0, v1, cv0, cv1 = DS2.V(s0), DS2.V(s1), DS2.CV(s0), DS2.CV(s1)
+        k = z3.Const("k!av", StrS)
+        return DS2.wf(s1) + [
+            ("was-a-new-name", z3.Not(v0.has(nm))),
+            ("variables-appended", DS2.appended_key(v1, v0, nm)),
+            ("normalize-appended", DS2.appended_key(DS2.N(s1), DS2.N(s0), nm)),
+            ("indices-appended", DS2.appended_key(DS2.I(s1), DS2.I(s0), nm)),
+            ("index-range", z3.And(DS2.start(DS2.I(s1).vals[nm]) == s0.dimension, DS2.stop(DS2.I(s1).vals[nm]) == s0.dimension + sz)),
+            ("size-and-type", z3.And(DS2.size(v1.vals[nm]) == sz, DS2.VAR.accessor("type")(v1.vals[nm]) == sterm(c.old.type_))),
+            ("dimension", s1.dimension == s0.dimension + sz),
+            ("other-values-kept", z3.ForAll([k], z3.Implies(k != nm, z3.And(cv1.has(k) == cv0.has(k), z3.Implies(cv0.has(k), cv1.vals[k] == cv0.vals[k]))))),
+            ("value-set", cv1.has(nm)),
+        ] + DS2.caches_invalidated(s0, s1)
+
+    def ensures(self, c):
+        s0, s1 = c.old.self, c.new.self
+        gname, glb, gub, gval = added(c)
+        return self._c02_post(c) + [f for f in ps_kept(s0, s1) if f[0] in _PS_OWN] + \
+            [("registered-with-the-given-bounds-and-value", z3.And(gname == c.old.name, glb == arr1(c.old.lower_bound), gub == arr1(c.old.upper_bound), gval == arr1(c.old.value)))]
+
+
+@register
+class GetRandomVectorSize(Contract):
+    targets = (PS + ".__get_random_vector_size",)
+    prop = ("C19",)
+    trusted = True
+    description = ("assumed (nested set comprehension over the parameter collections): __get_random_vector_size returns the given size when it is not 0, otherwise the largest "
+                   "length of the parameter collections - 1 when there is none -, or raises ValueError when the lengths are inconsistent; no side effect")
+    params = {"size": TInt}
+    returns = TInt
+    raises = {"ValueError": None}
+
+    def ensures(self, c):
+        sz, r = c.old.size, c.result
+        idp, pv = c.arg("interfaced_distribution_parameters"), c.arg("parameter_values")
+        po = c._old_heap[pv.ref.id] if hasattr(pv, "ref") else None
+        none = isinstance(idp, tuple) and len(idp) == 0 and po is not None and z3.is_int_value(z3.simplify(po.n)) and z3.simplify(po.n).as_long() == 0
+        return [("given-size", z3.Implies(sz != 0, r == sz)), ("deduced-size-at-least-one", z3.Implies(sz == 0, r >= 1))] + \
+            ([("no-parameter-collection:one", z3.Implies(sz == 0, r == 1))] if none else [])
+
+
+FAM = "_ParameterSpace__distribution_family_id"
+_ADD_CALLEES = {DS + ".add_variable": "c19"}
+
+
+def registration_post(c, name, default_class=None, size=None):
+    """What registering the random vector `name` establishes (see AddRandomVector)."""
+    s0, s1 = c.old.self, c.new.self
+    u0, u1, d0, d1, v0, v1 = UV(s0), UV(s1), DD(s0), DD(s1), DS2.V(s0), DS2.V(s1)
+    J = d1.get(name)
+    n = j_n(J)
+    gname, glb, gub, gval = added(c)
+    i, k = z3.Int("i!rg"), z3.Const("k!rg", StrS)
+    out = DS2.wf(s1) + ps_wf(s1) + [
+        ("was-a-new-name", z3.Not(v0.has(name))),
+        ("appended-last-to-the-uncertain-variables", z3.And(u1.n == u0.n + 1, u1.elems[u0.n] == name, z3.ForAll([i], z3.Implies(z3.And(0 <= i, i < u0.n), u1.elems[i] == u0.elems[i])))),
+        ("its-distribution-registered-the-others-kept", z3.And(d1.has(name), z3.ForAll([k], z3.Implies(k != name, z3.And(d1.has(k) == d0.has(k), z3.Implies(d0.has(k), d1.get(k) == d0.get(k))))))),
+        ("appended-last-to-the-design-variables", DS2.appended_key(v1, v0, name)),
+        ("one-component-per-marginal-float-type", z3.And(DS2.size(v1.vals[name]) == n, DS2.VAR.accessor("type")(v1.vals[name]) == str_lit("float"), s1.dimension == s0.dimension + n)),
+        ("bounds-are-the-support-the-distribution-reports", z3.And(gname == name, glb == JOINT.accessor("math_lower_bound")(J), gub == JOINT.accessor("math_upper_bound")(J))),
+        ("current-value-is-the-mean-the-distribution-reports", z3.And(F1.dim(gval) == n, fa([i], z3.Implies(z3.And(0 <= i, i < n), F1.els(gval)[i] == mean_v(j_dist(J, i))), F1.els(gval)[i]))),
+    ] + joint_is_that_of(c, s1)
+    if default_class is not None:
+        dc = sterm(default_class)
+        out += [("size", n == z3.If(size == 0, 1, size)),
+                ("marginals-made-by-the-named-class", fa([i], z3.Implies(z3.And(0 <= i, i < n), MARGS.dt.accessor(0, 1)(JOINT.accessor("marginals")(J))[i] == default_marginal(dc)),
+                                                         MARGS.dt.accessor(0, 1)(JOINT.accessor("marginals")(J))[i])),
+                ("family-recorded", getattr(s1, FAM) == z3.If(str_nonempty_f(getattr(s0, FAM)), getattr(s0, FAM), family_id(dc)))]
+    return out
+
+
+def _arv_inv(c, k):
+    m = c.locals["marginals"]
+    i = z3.Int("i!ai")
+    return [("count", m.n == k), ("made-by-the-class", fa([i], z3.Implies(z3.And(0 <= i, i < k), m.elems[i] == default_marginal(sterm(c.old.distribution))), m.elems[i]))]
+
+
+class _Registration(Contract):
+    prop = ("C19",)
+    c19 = True
+    numpy = "precise"
+    callee_variants = _ADD_CALLEES
+    modifies = ("self",) + JOINT_GHOSTS + ADD_GHOSTS
+    raises = {"ValueError": None}
+
+    def requires(self, c):
+        s = c.old.self
+        return DS2.wf(s) + ps_wf(s)
+
+    def axioms(self, c):
+        return DS2.derived_wf(c.old.self)
+
+
+@register
+class AddRandomVectorDefault(_Registration):
+    """add_random_vector(name, distribution, size) WITHOUT distribution parameters (default law, no interfaced distribution) - VERIFIED: the vector is appended
+    last to uncertain_variables (order of the others kept) and to the design variables, with one float component per marginal; its joint distribution is made of
+    `size` (1 when 0) marginals of the named class and is registered under its name, the other distributions being kept; the design variable is added with the
+    SUPPORT the joint distribution reports as bounds and the MEAN it reports as current value; the joint distribution of ALL the uncertain variables is rebuilt
+    from exactly the uncertain variables of the final state, in order; the design-space and parameter-space invariants hold afterwards (ValueError: existing
+    name, mixed families, rejected by the library or by add_variable)."""
+
+    targets = (PS + ".add_random_vector",)
+    variant = "default-parameters"
+    params = {"name": TStr, "distribution": TStr, "size": TInt}
+    loops = {0: LoopSpec(anchor="range(size)", inv=_arv_inv, modifies=("marginals",), local_types={"marginals": MARGS, "i": TInt})}
+
+    def requires(self, c):
+        return super().requires(c) + [("non-negative-size", c.old.size >= 0)]
+
+    def ensures(self, c):
+        return registration_post(c, c.old.name, c.old.distribution, c.old.size)
+
+
+def _general_post(c):
+    s0, s1 = c.old.self, c.new.self
+    sz, dc = c.old.size, sterm(c.old.distribution)
+    n = j_n(DD(s1).get(c.old.name))
+    return registration_post(c, c.old.name) + [
+        ("given-size", z3.Implies(sz != 0, n == sz)),
+        ("family-recorded", getattr(s1, FAM) == z3.If(str_nonempty_f(getattr(s0, FAM)), getattr(s0, FAM), family_id(dc)))]
+
+
+@register
+class AddRandomVector(_Registration):
+    targets = (PS + ".add_random_vector",)
+    trusted = True
+    params = {"name": TStr, "distribution": TStr, "size": TInt}
+    description = ("assumed for ARBITRARY distribution parameters, VERIFIED for the default-parameter case (variant add_random_vector@default-parameters, same clauses): the "
+                   "parameters only select the marginals (per-component broadcasting of the parameter collections, distribution_class(**kwargs), textual definitions) - this "
+                   "part is not modelled; the registration itself (order in uncertain_variables and in the design space, support as bounds, mean as current value, joint "
+                   "distribution of all uncertain variables rebuilt, invariants) does not depend on them")
+
+    def ensures(self, c):
+        return _general_post(c)
+
+
+@register
+class AddRandomVariable(_Registration):
+    """add_random_variable(name, distribution, size, **parameters) registers the random vector `name` of the named distribution class and of the given size (what
+    add_random_vector establishes: appended last to uncertain_variables and to the design space, support as bounds, mean as current value, joint distribution
+    rebuilt, invariants); the parameters are forwarded as one-element collections (their use by add_random_vector is not modelled)."""
+
+    targets = (PS + ".add_random_variable",)
+    params = {"name": TStr, "distribution": TStr, "size": TInt, "parameters": TDict(TStr, TVal)}
+
+    def ensures(self, c):
+        return _general_post(c)
+
+
+# ---------------------------------------------------------------------------- samples of the parameter space
+from pyvc.plug_c19 import JOINT_DRAW_GHOSTS, joint_dimension  # noqa: E402
+
+
+def arr2(a):
+    return F2.dt.mk(a.obj.shape[0], a.obj.shape[1], a.obj.elems)
+
+
+def one_joint_draw(c, n, values_term):
+    g0, g1 = c.old_ghost, c.new_ghost
+    return [("one-draw-from-the-joint-distribution-of-all-uncertain-variables", z3.And(g1("c19_joint_draw_n", INT) == g0("c19_joint_draw_n", INT) + 1,
+                                                                                        g1("c19_joint_draw_of", TVal.sort()) == c.old.self.distribution,
+                                                                                        g1("c19_joint_draw_size", INT) == n)),
+            ("what-was-drawn", g1("c19_joint_draw_values", F2.sort()) == values_term)]
+
+
+@register
+class ComputeSamplesArray(Contract):
+    """compute_samples(n) returns the n x d matrix of exactly ONE call of the sampler of `distribution`, the joint distribution of all the uncertain variables
+    (d = the dimension this joint distribution reports); nothing is modified."""
+
+    targets = (PS + ".compute_samples",)
+    prop = ("C19",)
+    c19 = True
+    numpy = "precise"
+    params = {"n_samples": TInt}
+    returns = F2
+    modifies = JOINT_DRAW_GHOSTS
+    raises = {"ValueError": lambda c: c.old.n_samples < 0}
+
+    def ensures(self, c):
+        r = c.result
+        return [("n-rows-d-columns", z3.And(ln(r, 0) == c.old.n_samples, ln(r, 1) == joint_dimension(c.old.self.distribution)))] + one_joint_draw(c, c.old.n_samples, arr2(r))
+
+
+def _rows_spec(c, L, sample_term):
+    """L[r] = the split of row r along the uncertain variables, in their order (blocks relative to the layout c19_variable_size)."""
+    u = UV(c.old.self)
+    r, i = z3.Int("r!rs"), z3.Int("i!rs")
+    nt = list_term(NAMES, u)
+    row = lambda rr: F1.dt.mk(F2.dim(sample_term, 1), z3.Lambda([i], z3.Select(F2.els(sample_term), rr, i)))  # noqa: E731
+    x = z3.Const("x!rs", StrS)
+    d = lambda rr: L.elems[rr]  # noqa: E731
+    return [("one-dictionary-per-sample", L.n == F2.dim(sample_term, 0)),
+            ("exactly-the-uncertain-variables", z3.ForAll([r, x], z3.Implies(z3.And(0 <= r, r < L.n), BLOCKS.acc(0)(d(r))[x] == in_list(u, x)))),
+            ("each-entry-is-the-block-of-its-variable-in-the-row", z3.ForAll([r, x], z3.Implies(z3.And(0 <= r, r < L.n, in_list(u, x)), BLOCKS.acc(1)(d(r))[x] == blk(row(r), nt, x))))]
+
+
+@register
+class ComputeSamplesDicts(Contract):
+    """compute_samples(n, as_dict=True): one dictionary per row of the matrix drawn (ONE call of the sampler of the joint distribution of all the uncertain
+    variables), with exactly the uncertain variables as keys, the entry of a variable being its block of the row - blocks laid out along uncertain_variables
+    IN THEIR ORDER with the sizes of the variables."""
+
+    targets = (PS + ".compute_samples",)
+    variant = "as_dict"
+    prop = ("C19",)
+    c19 = True
+    numpy = "precise"
+    callee_variants = CALLEES
+    params = {"n_samples": TInt, "as_dict": TBool}
+    returns = TList(BLOCKS)
+    modifies = JOINT_DRAW_GHOSTS
+    raises = {"ValueError": lambda c: c.old.n_samples < 0}
+
+    def requires(self, c):
+        return [("as-dict", bv(c.old.as_dict))] + ps_wf(c.old.self)
+
+    def axioms(self, c):
+        return layout_definition(c.old.self)
+
+    def ensures(self, c):
+        g1 = c.new_ghost
+        drawn = g1("c19_joint_draw_values", F2.sort())
+        return [("n-rows", F2.dim(drawn, 0) == c.old.n_samples)] + one_joint_draw(c, c.old.n_samples, drawn) + _rows_spec(c, c.result, drawn)
